@@ -981,34 +981,19 @@ theorem ask_greedy_optimal_run (lossFn : List (Option α) → List (Option (List
   rw [h2.1]
   exact sub_pos.2 hlt
 
-/-! ### counterexample (at `Rat`): `lossScale = scaleX` is needed and is not an invariant -/
+/-! ### the history that used to leave a stale x-scale in the tables
 
-/-- `Learner1D(bounds=(0, 1))` with a loss function returning `1/10` for every interval:
-`tell_many([.2, .4, .6])` (batch path: bounding box `(.2, .6)`, the tables get the x-scale `.4`),
-`tell(.9)` (x-scale `.7`, the tables keep `.4`), `tell_pending(.95)` (the interval `(.9, .95)` has
-no finite loss).  All points lie inside the bounds. -/
+Before the repair `fix: Learner1D.tell_many batch path shrank the x-scale` the batch path took the
+range of its points as bounding box: `Learner1D(bounds=(0, 1))`, `tell_many([.2, .4, .6])`,
+`tell(.9)`, `tell_pending(.95)` left `lossScale = 2/5` in the tables against the current `scaleX = 7/10`,
+and `ask(7)` was not optimal.  Now both stay at the width of the domain. -/
+
 def staleState : State Rat :=
   run (fun _ _ => .fin (1 / 10)) id (init (0 : Rat) 1 2 0 0)
     [.tellMany [(1 / 5, [0]), (2 / 5, [0]), (3 / 5, [0])] false, .tell (9 / 10) [0],
      .tellPending (19 / 20)]
 
-/-- In `staleState` the scale of the tables differs from the current one, the table ranks the
-interval `(.9, .95)` (effective weight `1/14`) before the three intervals of loss `1/10`, and
-`ask(7)` (two bounds, five points from the loop) yields the allocation `[4, 1, 2, 2, 1, 1]` with
-largest per-part loss `1/10`, while `[3, 1, 1, 2, 2, 2]` uses the same number of parts and has
-largest per-part loss `2/21 < 1/10`.  The real code returns the same points. -/
-example :
-    staleState.lossScale = 2 / 5 ∧ staleState.scaleX = 7 / 10 ∧
-    candList staleState =
-      [(0, 1 / 5), (19 / 20, 1), (9 / 10, 19 / 20), (1 / 5, 2 / 5), (2 / 5, 3 / 5),
-        (3 / 5, 9 / 10)] ∧
-    (candList staleState).map (wOf staleState) = [2 / 7, 1 / 14, 1 / 14, 1 / 10, 1 / 10, 1 / 10] ∧
-    (candList staleState).map (gOf (askQuals id staleState 7)) = [4, 1, 2, 2, 1, 1] ∧
-    ([4, 1, 2, 2, 1, 1] : List Nat).sum = ([3, 1, 1, 2, 2, 2] : List Nat).sum ∧
-    (List.zipWith (fun (w : Rat) (a : Nat) => w / a) ((candList staleState).map (wOf staleState))
-      [3, 1, 1, 2, 2, 2]).all (fun x => decide (x ≤ 2 / 21)) = true ∧
-    (List.zipWith (fun (w : Rat) (a : Nat) => w / a) ((candList staleState).map (wOf staleState))
-      [4, 1, 2, 2, 1, 1]).all (fun x => decide (x ≤ 2 / 21)) = false := by
+example : staleState.lossScale = 1 ∧ staleState.scaleX = 1 ∧ staleState.bboxX = (0, 1) := by
   decide +kernel
 
 end L1D
